@@ -80,6 +80,13 @@ def oracle_fold(text, k, fb, valid):
         un = call_impl(folding.unfold, tf, index)
         if un != ('ok', [(x, 't') for x in text]):
             return 'unfold of transformed folds is not the transformed text'
+        # a transformation whose values are lists (tokenised lines), some of them empty or nested: lines stay opaque
+        def tok(x):
+            return [] if x % 4 == 1 else [['n', x]] if x % 4 == 2 else ['L%d' % x, x]
+        tf = [[tok(x) for x in f] for f in folds]
+        un = call_impl(folding.unfold, tf, index)
+        if un != ('ok', [tok(x) for x in text]):
+            return 'unfold of folds whose lines are lists is not the transformed text (lines are not opaque values)'
         # a transformation that maps some lines to the empty string: still one line per line
         tf = [['' if x % 3 == 0 else 'L%d' % x for x in f] for f in folds]
         un = call_impl(folding.unfold, tf, index)
@@ -121,6 +128,28 @@ def main():
                 op=704, arg=[text, k, []], site='folding.fold+unfold', desc={'n': n, 'k': k, 'fb': None, 'roundtrip': True},
                 impl=(lambda text=text, k=k: impl_round(text, k, None)),
                 dec=decode_result, nontrivial=lambda m: True))
+    # 1b. texts whose lines are themselves lists (token lists, empty lists): fold/unfold must not look inside
+    for n in range(1, 9):
+        ltext = [[] if i % 3 == 1 else [['w', i]] if i % 3 == 2 else ['u%d' % i, 'v%d' % i] for i in range(n)]
+        for k in range(1, n + 1):
+            def impl(ltext=ltext, k=k):
+                def f():
+                    folds, index = folding.fold([list(l) for l in ltext], k)
+                    return folds, index, folding.unfold(folds, index)
+                return call_impl(f)
+
+            def oracle(out, ltext=ltext, k=k):
+                if out[0] != 'ok':
+                    return 'fold/unfold of a text of list-valued lines raised ' + out[1]
+                folds, index, un = out[1]
+                if un != ltext:
+                    return 'unfold(fold(text)) != text for list-valued lines: %r' % (un,)
+                if any(sorted(map(repr, f)) != sorted(map(repr, ltext)) for f in folds):
+                    return 'a fold of list-valued lines is not a permutation of the lines'
+                return None
+            cases.append(dict(op=702, arg=[list(range(n)), k, []], site='folding.fold(list-valued lines)', desc={'n': n, 'k': k, 'lines': 'lists'},
+                              impl=impl, dec=lambda w, ltext=ltext: decode_result(w, lambda v: ([[ltext[i] for i in f] for f in v[0]], v[1], ltext)),
+                              oracle=oracle, nontrivial=lambda m: True))
     # 2. every strictly increasing boundary vector starting at 0 (valid), n <= NB
     nvalid = 0
     for n in range(1, NB + 1):
